@@ -270,6 +270,8 @@ def check_projection(case):
         man = ImpulsiveMan(date, given, frame=tag)
         if man.frame != frame:
             raise Violation("man-frame-tag", f"frame {tag!r} stored as {man.frame!r}")
+        if isinstance(given, np.ndarray):
+            given += 1.0                # the caller's array is not kept by reference
         compare("dv", man.dv(orb), ig.to_inertial(dv, c, frame), float(np.linalg.norm(dv)))
         for bad in ([1.0, 2.0], [1.0, 2.0, 3.0, 4.0]):
             try:
@@ -289,6 +291,8 @@ def check_projection(case):
             acc = dv
         if man.frame != frame:
             raise Violation("man-frame-tag", f"frame {tag!r} stored as {man.frame!r}")
+        if isinstance(given, np.ndarray):
+            given += 1.0                # the caller's array is not kept by reference
         compare("accel", man.accel(orb), ig.to_inertial(acc, c, frame), float(np.linalg.norm(acc)))
         # |accel| x duration = |dv|
         tot = float(np.linalg.norm(np.asarray(man._dv, float)))
